@@ -510,6 +510,16 @@ func runC10M(c *Ctx) {
 		c.Note(fmt.Sprintf("history-calls=%d", len(shapes)))
 		c.c10Canvas(fmt.Sprintf("hist/%s/%s/cpu%g/%s", how, p.label, cpu, kind), cpu, shapes, 0, c10Opts{marchVariants: false, cells: true})
 	}
+
+	// an EMPTY surface (no sample below the cutoff) over two blocks, in every run: before /repo 0adf5e5 the sequential March
+	// panicked on it while MarchParallel returned the empty mesh; both must return the empty mesh
+	{
+		cpu := cpus[c.Rng.Intn(len(cpus))]
+		sh := c10Shape{kind: "l1", cx: 100.5 / cpu, cy: 40.5 / cpu, cz: 60.5 / cpu, r: 0.25 / cpu, ax: 1, ay: 1, az: 1}
+		c.Note("category=history")
+		c.Note("history=empty-surface")
+		c.c10Canvas(fmt.Sprintf("hist/empty-surface/2blocks-x/cpu%g/l1", cpu), cpu, []c10Shape{sh, sh}, 0, c10Opts{marchVariants: true, cells: true})
+	}
 }
 
 // Stream "c10r": the workload of the race-detector build (go/harness/race_c10.sh).  Every parallel entry point once more:
